@@ -1,4 +1,4 @@
-import os, sys; ROOT = os.environ.get("JOBLIB_ROOT", "/tmp/wt_t2"); sys.path.insert(0, ROOT); os.environ["PYTHONPATH"] = ROOT + os.pathsep + os.environ.get("PYTHONPATH", "")
+import os, sys; ROOT = os.environ.get("JOBLIB_ROOT", "/repo"); sys.path.insert(0, ROOT); os.environ["PYTHONPATH"] = ROOT + os.pathsep + os.environ.get("PYTHONPATH", "")
 """C12 on the unchanged tree: a MemorizedFunc that is pickled in one session and
 unpickled in the next keeps the source text captured at pickling time
 (__getstate__ forces func_code_info, the unpickled copy never re-reads it
